@@ -108,4 +108,176 @@ theorem sim_attestation_altair (cfg : Config) (ctx : Ctx) (s : State) (att : Att
     hnz hbrf hR hsum hbal hpc hpp]
   exact Sim.cross _ _ _
 
+
+theorem sim_randao (cfg : Config) (ctx : Ctx) (s : State) (block : SignedBlock) (p : Nat)
+    (hp : Block.get_beacon_proposer_index cfg s = .ok p) (hctx : ctx.proposer = some p) (hpv : p < s.validators.length)
+    (hlen : s.randao_mixes.length = cfg.EPOCHS_PER_HISTORICAL_VECTOR) (hpos : 0 < cfg.EPOCHS_PER_HISTORICAL_VECTOR) :
+    Sim (Block.process_randao cfg s block) (processRandaoReveal cfg ctx s block) :=
+  Sim.of_eq (randao_eq cfg ctx s block p hp hctx hpv hlen hpos)
+
+theorem sim_eth1 (cfg : Config) (s : State) (block : SignedBlock)
+    (hsmall : cfg.EPOCHS_PER_ETH1_VOTING_PERIOD * cfg.SLOTS_PER_EPOCH * 2 + 2 < 2 ^ 64) :
+    Sim (Block.process_eth1_data cfg s block) (processEth1Vote cfg s block.eth1_data) :=
+  Sim.of_eq (eth1vote_eq cfg s block hsmall)
+
+theorem sim_payload (cfg : Config) (s : State) (block : SignedBlock) (payload : ExecutionPayload)
+    (hf : s.fork ≥ .bellatrix) (hx : payload.fields.extra_data.size ≤ cfg.MAX_EXTRA_DATA_BYTES)
+    (hlen : s.randao_mixes.length = cfg.EPOCHS_PER_HISTORICAL_VECTOR) (hpos : 0 < cfg.EPOCHS_PER_HISTORICAL_VECTOR)
+    (hsps : 0 < cfg.SECONDS_PER_SLOT) (hg : s.genesis_time < 2 ^ 64) :
+    Sim (Block.process_execution_payload cfg s block payload) (processExecutionPayload cfg s block payload) :=
+  Sim.of_eq (payload_eq cfg s block payload hf hx hlen hpos hsps hg)
+
+theorem sim_exit (cfg : Config) (ctx : Ctx) (s : State) (exit : SignedVoluntaryExit)
+    (hact : ctx.activeCount = (s.validators.filter (is_active_validator · (s.slot / cfg.SLOTS_PER_EPOCH))).length)
+    (hq : cfg.CHURN_LIMIT_QUOTIENT ≠ 0) (hreg : RegU64 s.validators) (hsmall : ExitSmall cfg s)
+    (hshard : s.slot / cfg.SLOTS_PER_EPOCH + cfg.SHARD_COMMITTEE_PERIOD < 2 ^ 64) :
+    Sim (Block.process_voluntary_exit cfg s exit) (processVoluntaryExit cfg ctx s exit) :=
+  Sim.of_eq (exit_eq cfg ctx s exit hact hq hreg hsmall hshard)
+
+theorem sim_blsChange (cfg : Config) (s : State) (op : SignedBLSToExecutionChange) :
+    Sim (Block.process_bls_to_execution_change cfg s op) (processBLSToExecutionChange s op) :=
+  Sim.of_eq (blsChange_eq cfg s op)
+
+theorem sim_deposit (cfg : Config) (ctx : Ctx) (s : State) (dep : Deposit)
+    (hpk : PubkeyOK s ctx) (hproof : dep.proof.length = Block.DEPOSIT_CONTRACT_TREE_DEPTH + 1)
+    (hebi : cfg.EFFECTIVE_BALANCE_INCREMENT ≠ 0) (hidx : s.eth1_deposit_index + 1 < 2 ^ 64)
+    (hbal : ∀ b ∈ s.balances, b + dep.data.amount < 2 ^ 64) :
+    Sim (Block.process_deposit cfg s dep) (processDeposit cfg ctx s dep >>= fun r => Res.ok r.2) :=
+  Sim.of_eq (deposit_eq cfg ctx s dep hpk hproof hebi hidx hbal)
+
+theorem sim_proposerSlashing (cfg : Config) (ctx : Ctx) (s : State) (ps : ProposerSlashing) (p : Nat)
+    (hp : ctx.proposer = some p) (hps : Block.get_beacon_proposer_index cfg s = .ok p)
+    (hact : ctx.activeCount = (s.validators.filter (is_active_validator · (s.slot / cfg.SLOTS_PER_EPOCH))).length)
+    (hq : cfg.CHURN_LIMIT_QUOTIENT ≠ 0) (hreg : RegU64 s.validators) (hsmall : ExitSmall cfg s) (hs : SlashSmall cfg s)
+    (hz : cfg.EPOCHS_PER_SLASHINGS_VECTOR ≠ 0 ∧ min_slashing_penalty_quotient cfg s.fork ≠ 0 ∧
+          cfg.WHISTLEBLOWER_REWARD_QUOTIENT ≠ 0 ∧ cfg.PROPOSER_REWARD_QUOTIENT ≠ 0) :
+    Sim (Block.process_proposer_slashing cfg s ps) (processProposerSlashing cfg ctx s ps) :=
+  Sim.of_eq (proposerSlashing_eq cfg ctx s ps p hp hps hact hq hreg hsmall hs hz)
+
+theorem sim_attesterSlashing (cfg : Config) (ctx : Ctx) (s : State) (op : AttesterSlashing) (p Bm C : Nat)
+    (hp : ctx.proposer = some p)
+    (hinv : SlashInv cfg s p ctx.activeCount Bm C cfg.MAX_VALIDATORS_PER_COMMITTEE s)
+    (hlen1 : op.attestation_1.attesting_indices.length ≤ cfg.MAX_VALIDATORS_PER_COMMITTEE)
+    (hlen2 : op.attestation_2.attesting_indices.length ≤ cfg.MAX_VALIDATORS_PER_COMMITTEE)
+    (hvl : s.validators.length ≤ marker)
+    (hq : cfg.CHURN_LIMIT_QUOTIENT ≠ 0)
+    (hz : cfg.EPOCHS_PER_SLASHINGS_VECTOR ≠ 0 ∧ min_slashing_penalty_quotient cfg s.fork ≠ 0 ∧
+          cfg.WHISTLEBLOWER_REWARD_QUOTIENT ≠ 0 ∧ cfg.PROPOSER_REWARD_QUOTIENT ≠ 0)
+    (hC : C + 1 + cfg.MIN_VALIDATOR_WITHDRAWABILITY_DELAY < 2 ^ 64)
+    (hepoch : s.slot / cfg.SLOTS_PER_EPOCH + cfg.EPOCHS_PER_SLASHINGS_VECTOR < 2 ^ 64)
+    (hBm : Bm * PROPOSER_WEIGHT < 2 ^ 64) :
+    Sim (Block.process_attester_slashing cfg s op) (processAttesterSlashing cfg ctx s op) :=
+  Sim.of_eq (attesterSlashing_eq cfg ctx s op p Bm C hp hinv hlen1 hlen2 hvl hq hz hC hepoch hBm)
+
+
+/-! ### the head of a block (header, randao, eth1 vote): frames, and the composition without a premise for blocks that carry no operations -/
+
+theorem processHeader_frame (st st' : State) (block : SignedBlock) (p : Nat) (h : processHeader st block p = .ok st') :
+    st'.validators = st.validators ∧ st'.slot = st.slot ∧ st'.randao_mixes = st.randao_mixes ∧ st'.fork = st.fork := by
+  unfold processHeader at h
+  simp only [guard_bind, rget_bind] at h
+  repeat' split at h
+  all_goals first | (cases h; done) | (cases h; exact ⟨rfl, rfl, rfl, rfl⟩)
+
+theorem processRandao_frame (cfg : Config) (ctx : Ctx) (st st' : State) (block : SignedBlock)
+    (h : processRandaoReveal cfg ctx st block = .ok st') :
+    st'.validators = st.validators ∧ st'.slot = st.slot ∧ st'.fork = st.fork ∧
+    ∃ x, st'.randao_mixes = st.randao_mixes.set (st.slot / cfg.SLOTS_PER_EPOCH % st.randao_mixes.length) x := by
+  unfold processRandaoReveal at h
+  simp only [guard_bind, rget_bind, ofOpt_bind] at h
+  repeat' split at h
+  all_goals first | (cases h; done) | (cases h; exact ⟨rfl, rfl, rfl, _, rfl⟩)
+
+theorem processEth1_frame (cfg : Config) (st st' : State) (data : Eth1Data) (h : processEth1Vote cfg st data = .ok st') :
+    st'.validators = st.validators ∧ st'.slot = st.slot ∧ st'.randao_mixes = st.randao_mixes ∧ st'.fork = st.fork := by
+  unfold processEth1Vote at h
+  simp only [guard_bind] at h
+  repeat' split at h
+  all_goals first | (cases h; done) | (cases h; exact ⟨rfl, rfl, rfl, rfl⟩)
+
+/-- the same registry, slot and proposer seed: the same duties -/
+theorem sameDuties_of_frame (cfg : Config) (s s' : State) (hv : s'.validators = s.validators) (hs : s'.slot = s.slot)
+    (hseed : get_seed cfg s' (get_current_epoch cfg s) DOMAIN_BEACON_PROPOSER = get_seed cfg s (get_current_epoch cfg s) DOMAIN_BEACON_PROPOSER) :
+    SameDuties cfg s s' :=
+  ⟨hs, hseed, by rw [hv], fun i v v' h h' => by rw [hv, h] at h'; cases h'; exact ⟨rfl, rfl⟩⟩
+
+/-- what header, randao and eth1 vote need and keep -/
+structure HeadInv (cfg : Config) (p : Nat) (ctx : Ctx) (st : State) : Prop where
+  fork : st.fork = .phase0
+  ctxp : ctx.proposer = some p
+  prop : Block.get_beacon_proposer_index cfg st = .ok p
+  plt : p < st.validators.length
+  mixes : st.randao_mixes.length = cfg.EPOCHS_PER_HISTORICAL_VECTOR
+
+
+/-- a block that carries no operations (phase0 container) -/
+structure NoOps (block : SignedBlock) : Prop where
+  ps : block.proposer_slashings = []
+  as : block.attester_slashings = []
+  att : block.attestations = []
+  dep : block.deposits = []
+  ex : block.voluntary_exits = []
+  bls : block.bls_to_execution_changes = []
+  payload : block.execution_payload = none
+  sync : block.sync_aggregate = none
+
+/-- `OpSteps` for `HeadInv`, for phase0 blocks without operations: every field is discharged — the head operations by
+their `M = S` theorems and the frame lemmas (the proposer survives the header, the RANDAO mix-in and the eth1 vote),
+the operation lists are empty -/
+theorem opSteps_noOps (cfg : Config) (block : SignedBlock) (p : Nat) (hno : NoOps block)
+    (hpos : 0 < cfg.EPOCHS_PER_HISTORICAL_VECTOR)
+    (hlook : (cfg.MIN_SEED_LOOKAHEAD + 1) % cfg.EPOCHS_PER_HISTORICAL_VECTOR ≠ 0)
+    (hsmall : cfg.EPOCHS_PER_ETH1_VOTING_PERIOD * cfg.SLOTS_PER_EPOCH * 2 + 2 < 2 ^ 64) :
+    OpSteps cfg block .phase0 (HeadInv cfg p) := by
+  have hkeep : ∀ ctx st st', HeadInv cfg p ctx st → st'.validators = st.validators → st'.slot = st.slot → st'.fork = st.fork →
+      st'.randao_mixes.length = st.randao_mixes.length →
+      get_seed cfg st' (get_current_epoch cfg st) DOMAIN_BEACON_PROPOSER = get_seed cfg st (get_current_epoch cfg st) DOMAIN_BEACON_PROPOSER →
+      HeadInv cfg p ctx st' := by
+    intro ctx st st' hi hv hs hf hl hseed
+    refine ⟨by rw [hf]; exact hi.fork, hi.ctxp, ?_, by rw [hv]; exact hi.plt, by rw [hl]; exact hi.mixes⟩
+    rw [proposer_frame cfg st st' (sameDuties_of_frame cfg st st' hv hs hseed)]
+    exact hi.prop
+  refine
+    { fork := fun ctx st hi => hi.fork
+      header := ?_, payload := ?_, withdrawals := ?_, randao := ?_, eth1 := ?_, proposerSlashing := ?_, attesterSlashing := ?_,
+      attestation := ?_, deposit := ?_, exit := ?_, blsChange := ?_, sync := ?_ }
+  · intro ctx st hi
+    refine ⟨sim_header cfg ctx st block p hi.prop hi.ctxp, fun st' h => ?_⟩
+    rw [hi.ctxp] at h
+    simp only [ofOpt, res_bind_ok] at h
+    obtain ⟨hv, hs, hm, hf⟩ := processHeader_frame st st' block p h
+    exact hkeep ctx st st' hi hv hs hf (by rw [hm]) (seed_of_mixes cfg st st' _ _ hm)
+  · intro ctx payload hpl; rw [hno.payload] at hpl; cases hpl
+  · intro ctx payload hpl; rw [hno.payload] at hpl; cases hpl
+  · intro ctx st _ _ hi
+    refine ⟨sim_randao cfg ctx st block p hi.prop hi.ctxp hi.plt hi.mixes hpos, fun st' h => ⟨?_, fun hf => by cases hf⟩⟩
+    obtain ⟨hv, hs, hf, x, hm⟩ := processRandao_frame cfg ctx st st' block h
+    refine hkeep ctx st st' hi hv hs hf (by rw [hm, List.length_set]) ?_
+    apply seed_set_frame cfg st st' x _ hlook
+    rw [hm, hi.mixes]; rfl
+  · intro ctx st _ _ hi
+    refine ⟨sim_eth1 cfg st block hsmall, fun st' h => ⟨?_, fun hf => by cases hf⟩⟩
+    obtain ⟨hv, hs, hm, hf⟩ := processEth1_frame cfg st st' block.eth1_data h
+    exact hkeep ctx st st' hi hv hs hf (by rw [hm]) (seed_of_mixes cfg st st' _ _ hm)
+  · intro ctx st x hx; rw [hno.ps] at hx; cases hx
+  · intro ctx st x hx; rw [hno.as] at hx; cases hx
+  · intro ctx st x hx; rw [hno.att] at hx; cases hx
+  · intro ctx st d hd; rw [hno.dep] at hd; cases hd
+  · intro ctx st x hx; rw [hno.ex] at hx; cases hx
+  · intro ctx st x hx; rw [hno.bls] at hx; cases hx
+  · intro ctx agg hsa; rw [hno.sync] at hsa; cases hsa
+
+/-- `M_block_refines_S` and `M_sound` WITHOUT a premise, for phase0 blocks that carry no operations: fork/container
+check, type limits, header, RANDAO, eth1 vote, operation-count limits and the deposit-count rule. For every phase0
+state whose context has the specification's proposer. -/
+theorem processBlock_noOps (cfg : Config) (ctx : Ctx) (st : State) (block : SignedBlock) (p : Nat) (hno : NoOps block)
+    (hfork : st.fork = .phase0) (hctx : ctx.proposer = some p) (hp : Block.get_beacon_proposer_index cfg st = .ok p)
+    (hplt : p < st.validators.length) (hmix : st.randao_mixes.length = cfg.EPOCHS_PER_HISTORICAL_VECTOR)
+    (hpos : 0 < cfg.EPOCHS_PER_HISTORICAL_VECTOR)
+    (hlook : (cfg.MIN_SEED_LOOKAHEAD + 1) % cfg.EPOCHS_PER_HISTORICAL_VECTOR ≠ 0)
+    (hsmall : cfg.EPOCHS_PER_ETH1_VOTING_PERIOD * cfg.SLOTS_PER_EPOCH * 2 + 2 < 2 ^ 64)
+    (htyped : Block.check_types cfg block = .ok ()) :
+    Sim (Block.process_block cfg st block) (processBlock cfg ctx st block) :=
+  processBlock_sim (opSteps_noOps cfg block p hno hpos hlook hsmall) ctx st ⟨hfork, hctx, hp, hplt, hmix⟩ htyped
+
 end Zrnt.Proofs.BlockM
